@@ -1,0 +1,17 @@
+//go:build verif
+
+package bitcoin
+
+// Thin exported wrappers used by the out-of-tree verification harness (property C29).
+// No behaviour of their own.
+
+// VerifReadCompactSizeUint exposes readCompactSizeUint.
+func VerifReadCompactSizeUint(varLenData []byte) (uint64, int, error) {
+	csu, n, err := readCompactSizeUint(varLenData)
+	return uint64(csu), n, err
+}
+
+// VerifWriteCompactSizeUint exposes writeCompactSizeUint.
+func VerifWriteCompactSizeUint(csu uint64) ([]byte, error) {
+	return writeCompactSizeUint(CompactSizeUint(csu))
+}
